@@ -14,7 +14,7 @@ CFG = dict(
         "brokers enforce Kafka's producer-id/epoch/sequence rules as modelled in Model.IdemBroker (one producer id per partition history); the simulated brokers of the harness are compared with that model batch by batch",
         "no_duplicate_append carries the producer-side hypothesis StampFunctional (a message always travels under one (epoch, sequence)); the pinned producer violates it after an epoch bump - known finding, with a kernel-checked counter-history",
     ],
-    trusted_base=["hooks in /repo (build tag verif)", "simulated cluster harness/overlay/sim_cluster.go"],
+    trusted_base=["hooks in /repo (build tag verif)", "simulated cluster harness/overlay/sim_cluster.go", "overlay c05_txn.go (calls the real transactionManager's getAndIncrementSequenceNumber / bumpEpoch)"],
     manifest=dict(
         text="Proof, broker side: for EVERY arrival history (any resends, reorderings, epochs) a leader enforcing Kafka's idempotence rules keeps the (epoch, sequence) stamps of its log strictly increasing, "
              "so no stamp is appended twice and a cached resend is answered with the original offset; hence no message is appended twice whenever the producer always sends a message under one stamp. "
